@@ -1608,7 +1608,7 @@ class Plate:
             if len(rows) != len(set(rows)):
                 raise ValueError("duplicate row names found")
             self.n_rows = len(rows)
-            self.row_names = rows
+            self.row_names = list(rows)  # the caller keeps their list
         else:
             raise ValueError("rows must be int or list")
 
@@ -1634,7 +1634,7 @@ class Plate:
             if len(columns) != len(set(columns)):
                 raise ValueError("duplicate column names found")
             self.n_columns = len(columns)
-            self.column_names = columns
+            self.column_names = list(columns)  # the caller keeps their list
         else:
             raise ValueError("columns must be int or list")
 
